@@ -20,7 +20,7 @@ from dverif.poly import Space, PolyArr, clear_recip, reduce_recip_linear
 from dverif.jsym import Interp, trace, is_sym, Unsupported, NonFiniteConstant
 
 VERIF = os.path.dirname(os.path.dirname(os.path.abspath(__file__)))
-EVID = os.path.join(VERIF, 'evidence')
+EVID = os.environ.get('DVERIF_EVIDENCE_DIR') or os.path.join(VERIF, 'evidence')
 REPLAY_DIR = os.path.join(EVID, 'replay')
 
 
